@@ -4,7 +4,9 @@
  * coq/Text/XmlLex.v defines the same client ([walk]) over the model; the two
  * outputs must be identical.
  *
- * stdin: one case per line "<id> <kind topo|diff> <path>"; each case runs in a
+ * kind b64: the file holds lines "<targsize> <text>"; hwloc_decode_from_base64(text, exactly-sized block, targsize)
+ * is called for each and "B <rc> <hex of the rc decoded bytes>" printed (same lines from the model decode_mem).
+ * stdin: one case per line "<id> <kind topo|diff|b64> <path>"; each case runs in a
  * forked child (an out-of-bounds access is an ASan report that kills only it).
  * stdout per case:  CASE <id> / events / ENDCASE
  *   I <major> <minor> | IFAIL | A <hexname> <hexvalue> | T <hextag> <closed> | FE | G <ret> <hextext> | C <1 ok|0>
@@ -62,11 +64,30 @@ static char *read_file(const char *path, size_t *lenp)
   b[len] = 0; fclose(f); *lenp = (size_t)len; return b;
 }
 
+static void do_b64(char *txt)
+{
+  char *l = txt;
+  while (l && *l) {
+    char *nl = strchr(l, '\n'), *sp; if (nl) *nl = 0;
+    sp = strchr(l, ' ');
+    if (sp) {
+      size_t t = (size_t) atoi(l); char *block = malloc(t ? t : 1); int rc, i;
+      char *src = strdup(sp + 1);                       /* exactly-sized source as well */
+      rc = hwloc_decode_from_base64(src, t ? block : block, t);
+      if (rc < 0) printf("B -1\n");
+      else { printf("B %d ", rc); if (!rc) putchar('-'); for (i = 0; i < rc; i++) printf("%02x", (unsigned char) block[i]); putchar('\n'); }
+      free(src); free(block);
+    }
+    l = nl ? nl + 1 : NULL;
+  }
+}
+
 static void do_case(const char *kind, const char *path)
 {
   size_t len = 0; char *txt = read_file(path, &len);
   struct hwloc_xml_backend_data_s bdata; struct hwloc__xml_import_state_s state;
   if (!txt) { printf("NOFILE\n"); return; }
+  if (!strcmp(kind, "b64")) { do_b64(txt); free(txt); return; }
   memset(&bdata, 0, sizeof(bdata)); memset(&state, 0, sizeof(state));
   state.global = &bdata; bdata.msgprefix = (char *) "tok";
   if (!strcmp(kind, "topo")) {
